@@ -72,6 +72,14 @@ Theorem C06_decB_response_encB : forall p fs,
 Proof. exact decB_response_encB. Qed.
 Print Assumptions C06_decB_response_encB.
 
+(* ... and INIT and VERSION, which have decoders of their own in codec B (no request id): version and every extension pair, in
+   place. Tied by the init / version cases of c06 (obs decBiv; hook VerifDecBInitVersion). *)
+Theorem C06_decB_initversion_enc : forall p, wf_packet p = true ->
+  match p with PInit _ _ | PVersion _ _ => True | _ => False end ->
+  decB_initversion (u8_enc (ptype p) ++ render (fieldsA p)) = Ok p.
+Proof. exact decB_initversion_enc. Qed.
+Print Assumptions C06_decB_initversion_enc.
+
 (* non-vacuity: a WRITE with a non-UTF-8 payload at offset 2^63 and an OPEN with size+permissions attributes *)
 Example C06_nonvacuous :
   let p1 := PWrite 4294967295 [x31]%byte 9223372036854775808 [xff; x00; xc3; x28]%byte in
